@@ -221,7 +221,9 @@ func (l *Lexer) Next() (TokenType, []byte) {
 
 	r, _ := l.r.PeekRune(0)
 	l.err = parse.NewErrorLexer(l.r, "unexpected %s", parse.Printable(r))
-	l.r.MoveRune() // allow to continue after error
+	if l.r.Peek(0) != 0 || l.r.Err() == nil {
+		l.r.MoveRune() // allow to continue after error, but never move past the end of the input
+	}
 	return ErrorToken, l.r.Shift()
 }
 
